@@ -1371,6 +1371,31 @@ def run_e2e(ctx, binp, T, n):
         ratios.append(round(len(doc) / float(len(gz)), 1))
         add('gzip-compressible', 'hex:' + hexs(gz), doc)
     ctx.cov['gzip_ratios'] = sorted(ratios)
+    # large COMPRESSED input (33 .. 64 KiB, beyond a decoder's 32 KiB input buffer): low-ratio content and stored blocks
+    import base64
+    csizes = []
+    for i in range(6 if n <= 300 else 24):
+        target = 34000 + rng.below(30000)
+        k = i % 3
+        if k == 0:       # random payload in a comment (base64 of random bytes: ratio about 1.3)
+            raw = bytes(rng.next() & 0xFF for _ in range(int(target * 0.76)))
+            body = '<!--%s--><rect width="10" height="10" fill="blue"/>' % base64.b64encode(raw).decode().replace('--', '-_')
+            level = 6
+        elif k == 1:     # long random-looking path data
+            pts = ' '.join('L %d.%02d %d.%02d' % (rng.below(200), rng.below(100), rng.below(200), rng.below(100))
+                           for _ in range(int(target / 5.6)))
+            body = '<path fill="none" stroke="black" d="M 0 0 %s"/>' % pts
+            level = 9
+        else:            # stored deflate blocks (no compression at all): plain size == compressed size
+            body = '<rect width="10" height="10"/><!--%s-->' % ''.join('%016x' % rng.next() for _ in range(target // 16))
+            level = 0
+        doc = '<svg %s width="200" height="200">%s</svg>' % (NS, body)
+        gz = gzip.compress(doc.encode(), compresslevel=level, mtime=0)
+        if not (33 * 1024 < len(gz) <= 64 * 1024):
+            continue
+        csizes.append(len(gz))
+        add('gzip-large-compressed', 'hex:' + hexs(gz), doc)
+    ctx.cov['gzip_compressed_sizes'] = sorted(csizes)
     for _ in range(max(2, n // 20)):
         for cls, a, b, desc in known_scenarios(rng):
             add('regression', a, b, cls=cls)
@@ -1487,7 +1512,7 @@ def run(ctx):
         "documents (targets: shape, g, a, svg, symbol, image, text, use; chains to depth 4; with/without x, y, width, height, transform, "
         "viewBox, preserveAspectRatio, overflow) vs full expansion; rect / circle / ellipse / line / polyline / polygon (percent units, "
         "one-sided / negative / oversize radii) vs paths; relative / shorthand / implicit path commands vs absolute; transform lists of "
-        "1-4 functions and transform-origin vs matrix(); a vs g (container, use target directly and through a chain, switch child, nested, empty, with text); switch vs first passing child; gzip vs plain, incl. highly compressible input (deflate ratios 150:1 .. 1000:1, up to 4 MB of text); viewports whose viewBox size equals / is proportional to / is swapped with / differs minimally from the viewport size, non-zero origin.  Distinct by document text; "
+        "1-4 functions and transform-origin vs matrix(); a vs g (container, use target directly and through a chain, switch child, nested, empty, with text); switch vs first passing child; gzip vs plain, incl. highly compressible input (deflate ratios 150:1 .. 1000:1, up to 4 MB of text) and compressed input of 33 .. 64 KiB (random payload, long path data, stored blocks); viewports whose viewBox size equals / is proportional to / is swapped with / differs minimally from the viewport size, non-zero origin.  Distinct by document text; "
         "non-trivial = the tree has at least one leaf.")
 
 
